@@ -38,6 +38,14 @@ def _nodes(rng, mode):
         a, b = out[0][1], out[1][1]; out[0][2] = ((3 * a[0] + b[0]) / 4, (3 * a[1] + b[1]) / 4); out[1][0] = ((a[0] + 3 * b[0]) / 4, (a[1] + 3 * b[1]) / 4)
     return out
 
+def _dist_to_chord(p, a, b):
+    """distance (float, for choosing a tolerance only) from p to the segment a-b"""
+    ax, ay, bx, by, px, py = map(float, (a[0], a[1], b[0], b[1], p[0], p[1]))
+    l2 = (bx - ax) ** 2 + (by - ay) ** 2
+    t = 0.0 if l2 == 0 else max(0.0, min(1.0, ((px - ax) * (bx - ax) + (py - ay) * (by - ay)) / l2))
+    return ((px - ax - t * (bx - ax)) ** 2 + (py - ay - t * (by - ay)) ** 2) ** 0.5
+
+
 def _far_nodes(rng):
     """a small shape far from the origin: handles a few 2^-11 long on nodes near (+-2^20, +-2^20) - flatness is an absolute distance,
     so the same shape must be subdivided the same way wherever it lies (all values dyadic: the float run stays exact)"""
@@ -110,6 +118,26 @@ def generate(rng, tier):
         nodes = [[piece[0], piece[0], piece[1]], [piece[2], piece[3], piece[3]]]
         if rng.random() < 0.3: nodes = nodes + _nodes(rng, "grid")[:1]
         cases.append({"nodes": nodes, "flat": flat, "exact": True, "family": "collinear-axis-parallel-overshoot"})
+    # slowly flattening pieces: the deviation comes from an end cap (a handle pointing away from the other end node) or three control
+    # points are clustered and the fourth is far away - halving such a piece removes well under half of its deviation; the tolerance
+    # is put between half of the piece's deviation and the deviation itself, so the halves of the first split still need testing
+    for _ in range(max(24, n // 6)):
+        q = lambda lo, hi: F(rng.randint(lo * 4, hi * 4), 4)
+        if rng.random() < 0.5:
+            p0 = (F(0), F(0)); p3 = (q(4, 12), F(0)); p1 = (-q(2, 9), q(0, 4)); p2 = rng.choice([p3, p3, (p3[0] + q(0, 2), q(-1, 1))]); shape = "end-cap"
+        else:
+            p0 = (F(0), F(0)); p1 = (q(0, 1), q(0, 1)); p2 = rng.choice([p1, (q(0, 1), q(0, 1))]); p3 = (-q(4, 12), q(-4, 4)); shape = "cluster-and-far-point"
+        piece = [p0, p1, p2, p3]
+        dev = max(_dist_to_chord(piece[k], p0, p3) for k in (1, 2))
+        if dev <= 0: continue
+        flat = F(max(1, round(dev * rng.uniform(0.5, 1.0) * 64)), 64)
+        ox, oy = q(-20, 20), q(-20, 20); sc = rng.choice([1, 1, 2, F(1, 2)])
+        if rng.random() < 0.5: piece = piece[::-1]
+        if rng.random() < 0.5: piece = [(y, x) for x, y in piece]
+        piece = [(ox + sc * x, oy + sc * y) for x, y in piece]
+        pre = _nodes(rng, "grid")[:rng.choice([0, 0, 1])]
+        nodes = pre + [[piece[0], piece[0], piece[1]], [piece[2], piece[3], piece[3]]]
+        cases.append({"nodes": nodes, "flat": flat * sc, "exact": True, "family": "slowly-flattening/" + shape})
     for _ in range(n // 6):
         nodes = _far_nodes(rng)
         cases.append({"nodes": nodes, "flat": F(1, 2 ** rng.choice([13, 12, 11, 10])), "exact": True, "family": "far-from-origin/n=%d" % len(nodes)})
